@@ -21,7 +21,7 @@ CASE_TIMEOUT = 60
 WALL = {"quick": 900, "thorough": 7200}
 REQUIRED = {"graphs_compared": 2000, "fasta": 300, "ig": 300, "txt": 300, "seq_list": 200, "gen_seq_specs": 300,
             "circular": 60, "single_residue": 30, "json_round_trips": 300, "connect_records": 200, "termini_renamed": 100,
-            "labels": 100, "letters_seen": 30, "json_labelled_edges": 300, "fasta_with_further_records": 50, "file_macro_uses": 100, "no_trailing_newline": 200, "multi_edge_connect_records": 50}
+            "labels": 100, "letters_seen": 30, "json_labelled_edges": 300, "fasta_with_further_records": 50, "file_macro_uses": 100, "connect_records_later_block_first": 100, "no_trailing_newline": 200, "multi_edge_connect_records": 50}
 DNA = {"A": "DA", "C": "DC", "G": "DG", "T": "DT"}
 RNA = {"A": "A", "C": "C", "G": "G", "T": "U", "U": "U"}       # uracil is written U in RNA files (T is tolerated)
 AA = {"G": "GLY", "A": "ALA", "V": "VAL", "C": "CYS", "P": "PRO", "L": "LEU", "I": "ILE", "M": "MET", "W": "TRP",
@@ -308,7 +308,12 @@ def run_genseq(cid, rng, workdir, res):
                 c = rng.randrange(first[si + 1][1])
                 if (a, c) not in pairs:
                     pairs.append((a, c))
-            connects.append("%d:%d:%s" % (si, si + 1, ",".join("%d-%d" % x for x in pairs)))
+            if rng.random() < 0.3:
+                # the later block named first: the residue numbers follow the order of the block numbers
+                connects.append("%d:%d:%s" % (si + 1, si, ",".join("%d-%d" % (x[1], x[0]) for x in pairs)))
+                bump(res, "connect_records_later_block_first")
+            else:
+                connects.append("%d:%d:%s" % (si, si + 1, ",".join("%d-%d" % x for x in pairs)))
             for a, c in pairs:
                 edges.add(frozenset((first[si][0] + a + 1, first[si + 1][0] + c + 1)))
             bump(res, "connect_records")
